@@ -423,6 +423,9 @@ def run_cli(case, agg):
     report(agg, h8("c01cli", case), f"CLI create {case}", data, ("ab" * 32, "cd" * 32), "cli", desc=desc, sample={"cli": case})
 
 
+RULE += ". Further stages: " + '(a3) wrapper, member subsets and an image digest all written as the same reference to ONE artifact (4 notations x 5 algorithms), three creations in a row'
+
+
 def plan(tier):
     b = 3 if tier == "quick" else 4
     st = [
